@@ -105,6 +105,9 @@ func (c *Conn) setState(now time.Time, state connState) {
 		c.setFinalError(nil)
 	}
 	if state != connStateAlive {
+		// Keep-alives are only sent while the conn is alive. A keep-alive deadline left
+		// armed would make the conn loop spin once it is due.
+		c.idle.nextTimeout = c.idle.idleTimeout
 		c.streamsCleanup()
 	}
 }
